@@ -114,6 +114,16 @@ CLAIMED = {
             "Cryptodome DES validated against the Gallina DES on known-answer vectors and random pairs on every run; MD5/AES "
             "parameters; os.urandom on a tape; non-ASCII VNC passwords raise (outside the statement)",
             "Coq proof (finite computation over 256 bytes, Feistel induction, Z.pow/mod algebra) + differential correspondence"),
+    "C07": ("Coq model of _expectFramebuffer/_expectCompare: crop (black outside), 768-bin histogram, exact sum of squares, and the "
+            "binary64 division / square root / <= through Coq's primitive floats; theorems: match iff (screen exists, 768 bins, RMS "
+            "<= tolerance on the crop at the box), pixel-identical regions match at every tolerance >= 0, a match at tolerance 0 "
+            "means equal histograms (given one IEEE fact as hypothesis), the region box, and - for every sequence of committed "
+            "screens of any length, by induction - exactly one request per non-matching commit, completion at the first matching "
+            "commit, nothing afterwards; the real client is judged by exact rational arithmetic and compared bit-for-bit with the "
+            "float model (vm_compute) at tolerances equal to, one ulp above and one ulp below the RMS; polling histories with raw, "
+            "cursor-only, desktop-size-only and last-rect updates",
+            "RGB awaited images; kernel float primitives listed by Print Assumptions (not axioms); open finding c07-empty-update",
+            "Coq proof (induction over update sequences, histogram algebra) + PrimFloat model evaluated by vm_compute + differential correspondence"),
 }
 NOT_YET = "check not built yet in this session (planned Coq model in DESIGN.md §3); not claimed"
 
